@@ -63,6 +63,7 @@ type Term struct {
 	val  uint64 // for bvlit / intlit (intlit as int64 in val)
 	name string // for var/bvar/app symbol when op=="app"
 	open bool   // contains a free bound variable
+	hasQ bool   // contains a quantifier
 	bvs  []*Term // bound variables (forall/exists)
 	pats []*Term // optional patterns (forall)
 }
@@ -128,6 +129,16 @@ func (c *Ctx) mk(op, srt string, val uint64, name string, args []*Term, bvs []*T
 		for _, a := range args {
 			if a.open {
 				t.open = true
+				break
+			}
+		}
+	}
+	if op == "forall" || op == "exists" {
+		t.hasQ = true
+	} else {
+		for _, a := range args {
+			if a.hasQ {
+				t.hasQ = true
 				break
 			}
 		}
